@@ -108,7 +108,9 @@ def _worker(args):
     recs = []
     full = None
     for mi, (made, populate) in enumerate(mades):
-        tdir = os.path.join(base, "t%d" % mi)
+        # the SAME two paths for every configuration this process goes through: a path that held a
+        # store with other settings a moment ago must be judged by what is on disk now
+        tdir = os.path.join(base, "t")
         troot = os.path.join(tdir, "store")
         os.makedirs(tdir)
         st = fhs.FileHashStore(props_of(supplied(made["depth"], made["width"], made["algo"],
@@ -117,7 +119,7 @@ def _worker(args):
             st.store_object("cfg:pid", inp)
             st.store_metadata("cfg:pid", minp)
             st.store_metadata("cfg:pid", minp, "other-format")
-        wdir = os.path.join(base, "w%d" % mi)
+        wdir = os.path.join(base, "w")
         wroot = os.path.join(wdir, "store")
         shutil.copytree(tdir, wdir)
         attempts = neighbours(made, rnd, 40 if tier == "quick" else 400)
